@@ -40,11 +40,25 @@ def main(argv=None):
         seed = 0
     mod = importlib.import_module(f"pvmc.props.{args.prop.lower()}")
     ctx = core.Ctx(args.prop.upper(), args.tier, seed)
+    core.TIER = args.tier
+    import signal
+
+    def on_alarm(signum, frame):
+        raise core.Hang(f"the check did not finish within its watchdog ({core.WATCHDOG[args.tier] * 1.5:.0f} s)")
+
+    signal.signal(signal.SIGALRM, on_alarm)
+    signal.alarm(int(float(os.environ.get("VERIF_WATCHDOG", core.WATCHDOG[args.tier])) * 1.5))
     try:
         if args.replay:
             body = core.unjson(json.load(open(args.replay)))
             return mod.replay(ctx, body)
         return mod.check(ctx)
+    except core.Hang as e:
+        # non-termination is a property violation of its own (bounded harnesses always terminate)
+        v = core.Violation(ctx.prop, "termination", "watchdog", dict(hang=str(e)), detail=str(e))
+        cov = dict(evaluations=1, distinct_nontrivial=0, rule="aborted by the watchdog", samples=[dict(hang=str(e))],
+                   states=1, transitions=1, traces_validated_against_impl=0, aborted=True)
+        return core.finish(ctx, "other", dict(cov, explanation="aborted by the watchdog: " + str(e)), [v], [])
     except core_harness_errors() as e:
         traceback.print_exc()
         print(f"HARNESS-ERROR: {e}")
